@@ -114,7 +114,9 @@ class Build:
             for src, out, defs in ((os.path.join(self.gen, 'low.c'), 'low.gb', []),
                                    (os.path.join(self.gen, 'low.c'), 'low_trk.gb', ['-DVF_TRACK_ALLOC']),
                                    (os.path.join(ROOT, 'model', 'vf_std.c'), 'vf_std.gb', []),
-                                   (os.path.join(ROOT, 'model', 'vf_std.c'), 'vf_std_trk.gb', ['-DVF_TRACK_ALLOC'])):
+                                   (os.path.join(ROOT, 'model', 'vf_std.c'), 'vf_std_trk.gb', ['-DVF_TRACK_ALLOC']),
+                                   # the model with its own loop contracts (model self-verification units only)
+                                   (os.path.join(ROOT, 'model', 'vf_std.c'), 'vf_std_lc.gb', ['-DVF_MODEL_LOOP_CONTRACTS'])):
                 tmpo = os.path.join(store, out + '.%d.tmp' % os.getpid())
                 rc, so, se, _ = sh(['goto-cc', '-D__CPROVER__VF'] + defs + inc + ['-c', src, '-o', tmpo])
                 if rc != 0:
@@ -231,7 +233,7 @@ def unit_cmds(u, b, out):
     igb = os.path.join(out, 'i.gb')
     trk = bool(u.get('track_alloc'))
     cc = ['goto-cc', '-D__CPROVER__VF'] + (['-DVF_TRACK_ALLOC'] if trk else []) + [('-D' + d) for d in u.get('defines', [])] + \
-        b.inc + [os.path.join(b.bin, 'low_trk.gb' if trk else 'low.gb'), os.path.join(b.bin, 'vf_std_trk.gb' if trk else 'vf_std.gb'),
+        b.inc + [os.path.join(b.bin, 'low_trk.gb' if trk else 'low.gb'), os.path.join(b.bin, 'vf_std_lc.gb' if u.get('model_loops') else ('vf_std_trk.gb' if trk else 'vf_std.gb')),
                  src, '--function', u['harness'], '-o', ugb]
     gi = ['goto-instrument']
     if u.get('mode') == 'bmc':
